@@ -1,5 +1,6 @@
 import Vet.Props.C04Keep
 import Vet.Props.C04
+import Vet.Props.C11Violation
 #print axioms Vet.C04_exemption_conflict
 #print axioms Vet.C04_audit_conflict
 #print axioms Vet.C04_no_claiming_edge_partial
@@ -7,3 +8,4 @@ import Vet.Props.C04
 #print axioms Vet.C04_counterexample_trusted
 #print axioms Vet.C04_counterexample_unpublished
 #print axioms Vet.C04_update_keeps_violations
+#print axioms Vet.C11_local_violations_kept
